@@ -5,6 +5,7 @@ Only property theorems and non-vacuity examples live here; helper lemmas are in 
 import SfntV.Proofs.OtlCoverage
 import SfntV.Proofs.OtlClassDef
 import SfntV.Proofs.OtlGsub
+import SfntV.Proofs.OtlLookupList
 
 namespace SfntV.Props.C08
 open SfntV SfntV.Otl
@@ -213,5 +214,45 @@ example : Gsub.encode12 [4, 5, 9] [100, 101, 7] =
 example : Gsub.encodeSeq [4, 5] [[1, 2, 3], []] =
     .ok (wordsToBytes [1, 20, 2, 10, 18, 3, 1, 2, 3, 0, 1, 2, 4, 5]) := by decide
 example : Gsub.seqTotal [[1, 2, 3], []] = 20 := by decide
+
+/-! ## Lookup-list layout (`LookupList.encode`, `tryReorder`, extension records)
+
+Model of the repaired `lookup.go` (a subtable offset above 0xFFFF and an undeterminable extension
+lookup type are refused with a panic).  Subtables are opaque byte strings (`Sub.bytes`, with
+`encodeLen = |encode|`, which is what the `C08_st_len_*` theorems state per subtable type); `kind`
+is what the encoder's type switch sees (GSUB-only, GPOS-only, neither).
+
+Domain: lookup type, flags and mark filtering set are 16-bit values (`LL.LLDom`); `extT` is the
+extension lookup type of the table the list goes into (7 for GSUB, 9 for GPOS) — no lookup has
+that type itself, and it is the type the encoder derives from the subtables unless it cannot
+derive any; the whole list stays below 4 GiB (32-bit sizes are not modelled). -/
+
+/-- For every lookup list: whenever the encoder returns bytes, the *specification* reader
+(`LL.specRead`: LookupList → Lookup tables → subtable offsets, through extension records where the
+lookup type is the extension type) finds every lookup with its type, flags and mark filtering set,
+and every subtable blob byte for byte at the place the 16-bit offsets (and the 32-bit extension
+offsets) lead to — so no written offset was wrapped.  The encoder never returns an error value:
+it writes or it refuses loudly (panic). -/
+theorem C08_lookuplist_layout (ll : List LL.Lookup) (D : LL.LLDom ll) (extT : Nat) (hTlt : extT < 65536)
+    (hT : ∀ l ∈ ll, l.type ≠ extT)
+    (hX : LL.extLookupType ll = 0 ∨ LL.extLookupType ll = extT)
+    (hsz : LL.totalSize (LL.chunksOf ll) + 8 * (ll.map (·.subs.length)).sum < 4294967296) :
+    (∀ b, LL.encode ll = .ok b → LL.Recovered b extT ll ∧ LL.recovers b extT ll = true) ∧
+    (∀ e, LL.encode ll ≠ .err e) :=
+  ⟨fun b h =>
+    have r := LL.recovered_of_encode ll D extT hTlt hT hX hsz b h
+    ⟨r, LL.recovers_of_recovered b extT ll r⟩,
+   LL.encode_not_err ll⟩
+
+/-! Non-vacuity: two lookups, the second with a mark filtering set; and a list that needs an
+extension record. -/
+def exLL : List LL.Lookup :=
+  [⟨1, 0, 0, [⟨1, wordsToBytes [1, 6, 5, 1, 1, 40]⟩]⟩, ⟨4, 16, 3, [⟨0, [1, 2, 3]⟩, ⟨0, [4]⟩]⟩]
+
+example : LL.LLDom exLL := ⟨by decide⟩
+example : LL.encode exLL = .ok (wordsToBytes [2, 6, 26, 1, 0, 1, 8, 1, 6, 5, 1, 1, 40, 4, 16, 2, 12, 15, 3] ++
+    [1, 2, 3, 4]) := by decide
+example : LL.recovers (wordsToBytes [2, 6, 26, 1, 0, 1, 8, 1, 6, 5, 1, 1, 40, 4, 16, 2, 12, 15, 3] ++
+    [1, 2, 3, 4]) 7 exLL = true := by decide
 
 end SfntV.Props.C08
